@@ -548,6 +548,9 @@ def c08_r2(ctx):
 def c08_r3(ctx):
     repo = ctx.repo
     outer = repo.func("client_generators.fragments:FragmentsGenerator._get_sorted_fragments_names")
+    if not repo.has_func("client_generators.fragments:FragmentsGenerator._get_sorted_fragments_names.visit"):
+        _iterative_toposort(ctx, outer)
+        return
     visit = repo.func("client_generators.fragments:FragmentsGenerator._get_sorted_fragments_names.visit")
     p = visit.node.args.args[0].arg
     vname = visit.node.name
@@ -595,6 +598,45 @@ def c08_r3(ctx):
     deps = [st for st in ast.walk(gen.node) if isinstance(st, ast.Assign) and norm(st.targets[0]).startswith("dependencies_dict[")]
     good = len(deps) == 1 and norm(deps[0].value) == "generator.get_fragments_used_as_mixins()"
     ctx.check(good, key(gen, "dependencies"), "the dependency graph is not built from the fragments each fragment uses as base classes", gen.loc(), okmsg="dependency edges = fragments used as mixins")
+
+
+def _iterative_toposort(ctx, outer: FuncInfo):
+    """the recursive post-order DFS was replaced by a loop: recognise the two classic wrong
+    iterative forms; anything else cannot be decided statically"""
+    rets = [n for n in outer.node.body if isinstance(n, ast.Return)]
+    R = rets[0].value.id if len(rets) == 1 and isinstance(rets[0].value, ast.Name) else None
+    if R is None:
+        raise AnalysisError("_get_sorted_fragments_names: returned list not identified")
+    # (1) result built from a reversed pre-order list
+    for c in walk_no_nested(outer.node):
+        if isinstance(c, ast.Call) and isinstance(c.func, ast.Attribute) and c.func.attr in ("extend", "append") and is_name(c.func.value, R) and c.args:
+            a = c.args[0]
+            rev = (isinstance(a, ast.Call) and is_name(a.func, "reversed")) or (isinstance(a, ast.Subscript) and isinstance(a.slice, ast.Slice) and isinstance(a.slice.step, ast.UnaryOp))
+            if rev:
+                src = a.args[0] if isinstance(a, ast.Call) else a.value
+                # is the reversed list filled at visit time (right after marking visited)?
+                if isinstance(src, ast.Name):
+                    for w in walk_no_nested(outer.node):
+                        if isinstance(w, ast.While):
+                            body = " ; ".join(norm(x) for x in w.body)
+                            if f"{src.id}.append(" in body and ".add(" in body and ".pop()" in body:
+                                ctx.fail(key(outer, "reverse pre-order"), f"`{R}` is built by reversing a pre-order (visit-time) list: with a shared dependency (A -> B, C ; B -> C) a fragment is emitted before its base class "
+                                         "(reverse pre-order is a topological order only for trees)", outer.loc(c))
+                                return
+    # (2) dependencies are marked visited when pushed, and filtered by that same set, while emission happens later
+    for w in walk_no_nested(outer.node):
+        if isinstance(w, ast.While):
+            for br in ast.walk(w):
+                if isinstance(br, ast.If):
+                    bt = " ; ".join(norm(x) for x in br.body)
+                    marks = [x for x in ast.walk(br) if isinstance(x, ast.Call) and isinstance(x.func, ast.Attribute) and x.func.attr in ("update", "add") and any(x is y for b_ in br.body for y in ast.walk(b_))]
+                    pushes = [x for x in ast.walk(br) if isinstance(x, ast.Call) and isinstance(x.func, ast.Attribute) and x.func.attr in ("extend", "append") and any(x is y for b_ in br.body for y in ast.walk(b_))]
+                    emits_else = any(isinstance(x, ast.Call) and isinstance(x.func, ast.Attribute) and x.func.attr == "append" and is_name(x.func.value, R) for b_ in br.orelse for x in ast.walk(b_))
+                    if marks and pushes and emits_else and f"not in {norm(marks[0].func.value)}" in norm(w):
+                        ctx.fail(key(outer, "marked when pushed"), f"dependencies are added to `{norm(marks[0].func.value)}` when they are pushed and later filtered by the same set, while a node is emitted only when popped: "
+                                 "a dependency that is already on the stack below is skipped, so its dependant is emitted first", outer.loc(marks[0]))
+                        return
+    raise AnalysisError("_get_sorted_fragments_names no longer uses the recursive post-order visit(); the iterative form present is not one the analyser can decide")
 
 
 @rule("C08.R4", "every @mixin base class is imported and appended to the bases of its own class", min_instances=4, also=["C04"])
@@ -653,7 +695,7 @@ GQL_ONLY_ATTRS = {"selections", "directives", "selection_set", "variable_definit
 GQL_AMBIG_ATTRS = {"name", "value", "alias", "type", "fields", "values"}
 
 
-@rule("C02.R2", "@mixin removal covers every location the directive is declared for, on a deep copy", min_instances=4)
+@rule("C02.R2", "@mixin removal covers every location the directive is declared for, on a deep copy", min_instances=4, also=["C08"])
 def c02_r2(ctx):
     repo = ctx.repo
     sch = repo.func("schema:add_mixin_directive_to_schema")
